@@ -80,7 +80,7 @@ Qed.
 
 Lemma process_evidences_same : forall p evs s seen s', process_evidences p s evs seen = Ok s' -> same s s'.
 Proof.
-  induction evs as [|[round signer] r IH]; intros s seen s' H; cbn [process_evidences] in H.
+  induction evs as [|[[round signer] differ] r IH]; intros s seen s' H; cbn [process_evidences] in H.
   - inv H. apply same_refl.
   - repeat (break_match; try discriminate); eauto.
     + destruct (do_penalize p s PDoubleSign v _) eqn:E; cbn [rbind] in H; [|discriminate].
